@@ -80,6 +80,34 @@ def check_case(case):
             sul = fr.sul
             sul_got = (sul.storage_unit_sequence_number, sul.maximum_record_length, sul.storage_set_identifier,
                        sul.dlis_version, sul.storage_unit_structure)
+            # the same reader walked over its visible records and then read again gives the same logical records
+            again = None
+            try:
+                vrs = [(vr.position, vr.length) for vr in fr.iter_visible_records()]
+                again = [(fld.lr_is_eflr, fld.lr_type, fld.logical_data.bytes, fld.lr_is_encrypted)
+                         for fld in fr.iter_logical_records()]
+            except Exception as err:  # noqa
+                bad.append(({'kind': 'second_read_raises', 'exc': type(err).__name__},
+                            'iter_visible_records() then iter_logical_records() on the same reader: %s: %s' % (type(err).__name__, err)))
+            if again is not None and again != got:
+                bad.append(({'kind': 'second_read_differs'}, 'the same reader, after iter_visible_records(), reads %d records that differ from '
+                            'its first read of %d records' % (len(again), len(got))))
+            if again is not None and vrs != [tuple(v) for v in lay.vrs]:
+                bad.append(({'kind': 'visible_records'}, 'iter_visible_records() gives (position, length) %r, the file holds %r'
+                            % (vrs[:6], [tuple(v) for v in lay.vrs][:6])))
+        # and a fresh reader that walks the visible records before its first sequential read
+        with File.FileRead(io.BytesIO(data)) as fr2:
+            first = None
+            try:
+                vrs2 = [(vr.position, vr.length) for vr in fr2.iter_visible_records()]
+                first = [(fld.lr_is_eflr, fld.lr_type, fld.logical_data.bytes, fld.lr_is_encrypted)
+                         for fld in fr2.iter_logical_records()]
+            except Exception as err:  # noqa
+                bad.append(({'kind': 'read_after_visible_records_raises', 'exc': type(err).__name__},
+                            'iter_visible_records() then iter_logical_records() on a fresh reader: %s: %s' % (type(err).__name__, err)))
+            if first is not None and (first != got or vrs2 != [tuple(v) for v in lay.vrs]):
+                bad.append(({'kind': 'read_after_visible_records_differs'}, 'a fresh reader that first walks its visible records reads %d records '
+                            'that differ from the plain sequential read of %d records' % (len(first), len(got))))
     except Exception as err:  # noqa
         kind = 'label_rejected' if 'SUL' in str(err) or 'StorageUnitLabel' in type(err).__name__ else 'read_raises'
         sig = {'kind': kind, 'exc': type(err).__name__}
